@@ -4,7 +4,7 @@ from vlib import core, mapgen, pkgrun
 
 PROP = "C05"
 LEAN_MODULES = ["ShootVerif.Props.C05"]
-USES_FACTS = False
+USES_FACTS = True
 DRIVER = "shootmodel_map"
 
 MANIFEST = dict(
@@ -38,6 +38,10 @@ def shaped(g):
         for order in ("embed-first", "field-first"):
             for ptr in ((True, True), (True, False), (False, True)):
                 out.append(("shadow-chain-%s-%s" % (side, order), mapgen.shadow_chain(side, order, ptr)))
+    # multi-type runs: a companion type with a mapper is processed first; the observed type has none and must not see its methods
+    for dis in (0.0, 1.0, 1.0):
+        sp = g.pair(kinds=["none", "misconv", "conv", "same"], names=["ident"], n=(4, 6), embeds=0.3, func_over=0.0, mapper_idle=0.0)
+        out.append(("companion-first", mapgen.add_companion(g.rng, sp, disabled=dis)))
     out.append(("universe-types", g.pair(kinds=["same", "oneway", "none"], names=["ident"], n=(5, 6))))
     # finding regions
     out.append(("multi", g.pair(multi=1.0, n=(1, 2), names=["ident"])))
@@ -78,6 +82,8 @@ def gen_cases(ctx):
         elif r < 0.30:
             o = {"manual": 1.0}
         sp = g.pair(**o)
+        if ctx.rng.random() < 0.25:
+            mapgen.add_companion(ctx.rng, sp)
         c = mapgen.make_case("r%d" % i, sp, roundtrip=True, masks=mapgen.part_masks(mapgen.side_struct(sp, "src")),
                              fmasks=mapgen.part_masks(sp["dest"]))
         c["feat"] = "random"
